@@ -19,7 +19,8 @@ RULE = ('targets with generated signatures (positional-only, positional-or-keywo
         'node with and without {{delete: False}}; non-trivial = a gap bound by name, a *args overflow, or >=2 merge steps; '
         'distinct = hash of the case')
 BUDGET = {'quick': (4, 700), 'thorough': (16, 12000)}
-ASSUMPTIONS = ['gap indices landing on keyword-only / **kwargs parameters, a string equal to the current target and call<->bind kind changes are not generated',
+ASSUMPTIONS = ['one case in eight also runs two fixed documents: a target name bound to another function between two builds, and builtin targets without an introspectable signature given gap-free positional arguments',
+               'gap indices landing on keyword-only / **kwargs parameters, a string equal to the current target and call<->bind kind changes are not generated',
                'argument values are scalars (nested argument mappings merge by the ordinary rules)']
 
 VALS = st.one_of(st.integers(0, 9), st.sampled_from(['s', None, True, 2.5]))
@@ -277,9 +278,21 @@ def _rebound_name():
                             f'(the document was built before, when the name denoted another function)\nsources:\n{text}')
 
 
+def _builtin_targets():
+    """Targets python cannot give a signature for (many builtins): positional arguments without gaps need none."""
+    text = '---\na: !call:int [3]\nb: !call:range [1, 4]\nc: !bind:max [2, 5]\nd: !call:dict {k: 1}\ne: !call:int 7\n'
+    status, got = O.try_call(O.build_config, [text])
+    if status != 'ok':
+        raise Violation(f'C13: list / scalar arguments are positions 0..n-1 of the target, but the build failed: {type(got).__name__}: {str(got)[:300]}\nsources:\n{text}')
+    c = got['c']
+    if got['a'] != 3 or got['b'] != range(1, 4) or got['d'] != {'k': 1} or got['e'] != 7 or not isinstance(c, functools.partial) or c.func is not max or c.args != (2, 5):
+        raise Violation(f'C13: builtin targets: got {O.to_builtin(got)!r}\nsources:\n{text}')
+
+
 def run_case(case):
     if case.get('rebind'):
         _rebound_name()
+        _builtin_targets()
     ds = docs(case)
     texts = [tdoc.render(d) for d in ds]
     src = '\nsources:\n' + '\n'.join(texts)
